@@ -1,4 +1,5 @@
 import GoImap.Model.Framing
+import GoImap.Lemmas.FramingEvs
 /-
   The unrepaired search-key parser (Fixes.depth = false) recurses once per NOT: on the chain
   NOT^n ALL it runs n levels below its entry, for every n.
